@@ -170,6 +170,7 @@ func runCB(x *X) {
 	onErr := func(e *simrt.SchedError) {
 		x.Violate("C08", "C08/blocked{"+e.Kind+"}", "breaker component: %s", e.Error())
 		x.Violate("C12", "C12/"+e.Kind+"{cb}", "breaker component: %s", e.Error())
+		x.Blocked(e, "cb")
 	}
 	for i := range scripts {
 		script := scripts[i]
